@@ -106,9 +106,11 @@ class TaskSet : public TaskSetBase {
   template <typename F>
   DISPENSO_REQUIRES(OnceCallableFunc<F>)
   void schedule(F&& f) {
+    DISPENSO_VERIF_POINT("TsSchedLoadCancel", this);
     if (DISPENSO_EXPECT(canceled(), false)) {
       return;
     }
+    DISPENSO_VERIF_POINT("TsSchedLoadOut", this);
     if (outstandingTaskCount_.load(std::memory_order_relaxed) > taskSetLoadFactor_ &&
         detail::PerPoolPerThreadInfo::canInlineSchedule()) {
       detail::InlineDepthGuard depthGuard;
@@ -313,6 +315,7 @@ class ConcurrentTaskSet : public TaskSetBase {
     // 3. Pool global: non-recursive callers inline at the loose poolLoadFactor_
     // After this check, use ForceQueuingTag to skip the redundant check
     // in ThreadPool::schedule.
+    DISPENSO_VERIF_POINT("TsCtsLoadOut", this);
     if (outstandingTaskCount_.load(std::memory_order_relaxed) > taskSetLoadFactor_ &&
         DISPENSO_EXPECT(!canceled(), true) && detail::PerPoolPerThreadInfo::canInlineSchedule()) {
       detail::InlineDepthGuard depthGuard;
@@ -320,9 +323,12 @@ class ConcurrentTaskSet : public TaskSetBase {
       return;
     }
     if (!skipRecheck) {
+      DISPENSO_VERIF_POINT("TsCtsLoadWork", this);
       ssize_t curWork = pool_.workRemaining_.load(std::memory_order_relaxed);
+      DISPENSO_VERIF_POINT("TsCtsLoadThreads", this);
       ssize_t quickFactor =
           static_cast<ssize_t>(static_cast<float>(pool_.numThreads()) * poolRecursiveLoadFactor);
+      DISPENSO_VERIF_POINT("TsCtsLoadLf", this);
       if ((detail::PerPoolPerThreadInfo::isPoolRecursive(&pool_) && curWork > quickFactor) ||
           curWork > pool_.poolLoadFactor_.load(std::memory_order_relaxed)) {
         if (!detail::PerPoolPerThreadInfo::canInlineSchedule()) {
@@ -452,7 +458,9 @@ class ConcurrentTaskSet : public TaskSetBase {
       F&& f,
       bool skipRecheck = false,
       float poolRecursiveLoadFactor = kDefaultPoolRecursiveLoadFactor) {
+    DISPENSO_VERIF_POINT("TsPlLoadThreads", this);
     ssize_t placedThreshold = std::max(pool_.numThreads() + 1, taskSetLoadFactor_ / 2);
+    DISPENSO_VERIF_POINT("TsPlLoadOut", this);
     if (outstandingTaskCount_.load(std::memory_order_relaxed) > placedThreshold &&
         DISPENSO_EXPECT(!canceled(), true) && detail::PerPoolPerThreadInfo::canInlineSchedule()) {
       detail::InlineDepthGuard depthGuard;
@@ -460,9 +468,12 @@ class ConcurrentTaskSet : public TaskSetBase {
       return;
     }
     if (!skipRecheck) {
+      DISPENSO_VERIF_POINT("TsCtsLoadWork", this);
       ssize_t curWork = pool_.workRemaining_.load(std::memory_order_relaxed);
+      DISPENSO_VERIF_POINT("TsCtsLoadThreads", this);
       ssize_t quickFactor =
           static_cast<ssize_t>(static_cast<float>(pool_.numThreads()) * poolRecursiveLoadFactor);
+      DISPENSO_VERIF_POINT("TsCtsLoadLf", this);
       if ((detail::PerPoolPerThreadInfo::isPoolRecursive(&pool_) && curWork > quickFactor) ||
           curWork > pool_.poolLoadFactor_.load(std::memory_order_relaxed)) {
         if (!detail::PerPoolPerThreadInfo::canInlineSchedule()) {
